@@ -510,7 +510,7 @@ def main():
     chk = H.Check("C11")
     thorough = H.tier() == "thorough"
     chk.bounds = ["singlet: all 8 methods, orders 1-3 (quick) and 4 (thorough; perturbative methods at order 4 through their U_k / R_k building blocks), symbolic beta_k, momentum-conserving symbolic gamma_k; iterate with 2 iterations, perturbative with 1; decompose at orders >= 3 decided on the exponent handed to exp_matrix_2D (v.M == 0) together with C23",
-                  "QED singlet iterate: 2 symbolic steps, orders (1,1),(2,1) (quick) + (2,2),(3,2) (thorough), exp_matrix by its series through eps^3",
+                  "QED singlet iterate: 2 symbolic steps, orders (1,1),(2,1) (quick) + (2,2) (thorough), exp_matrix by its series through eps^3",
                   "scale variations: expanded singlet (QCD, QED) and exponentiated, orders 1-4 / (1..3,1..2), nf 3-6; alpha_em running on and off",
                   "build_ome: forward, expanded inverse, exact inverse; matching orders 0-3; 3x3 symbolic A_k"]
     chk.stubs = ["eko.beta -> symbolic (BetaProxy)", "as4 roots -> symbolic roots + Vieta", "ekore exp_matrix -> power series (QED)"]
@@ -527,7 +527,7 @@ def main():
             chk.case("singlet.uvec.o%d.%s" % (o, "exact" if ex else "expanded"), case_uvec, order=o, is_exact=ex)
     for o in (2, 3, 4):
         chk.case("singlet.truncated.combination.o%d" % o, case_truncated_combination, order=o)
-    for od in ([(1, 1), (2, 1)] if not thorough else [(1, 1), (2, 1), (2, 2), (3, 2)]):
+    for od in ([(1, 1), (2, 1)] if not thorough else [(1, 1), (2, 1), (2, 2)]):  # (3,2): > 24 GB of residual polynomials, outside the bound
         chk.case("qed.iterate.o%d%d" % od, case_qed_iterate, order=od)
     for nf in ((3, 4, 5, 6) if thorough else (4,)):
         for o in (1, 2, 3, 4):
